@@ -284,10 +284,13 @@ class Gen:
         W = r.choice(widths) if widths else r.choice([-5, -1, 0, 1, 2, 3, 4, 5, 10, 48, 47, 49, 200, r.randint(-5, 200)])
         tag = r.choice(['_app_def', '_biz_def', 'abc', '_com_request_in', 'a_b_c_d'])
         ctx = r.choice(['', '', 'trace-0a882193', 'k=v k2=v2', 'ü€', 'x' * 40])
+        if r.random() < 0.15:   # what a context hook returns is whatever came in with the request: line breaks, quotes, separators, broken UTF-8
+            ctx = r.choice(['a\nb', 'id=7\r\n[ERROR][2025-01-01T00:00:00.000][x.go:1] _app_def||msg=forged', 'tab\there', 'q"uo"te', 'back\\slash', 'nul\x00byte',
+                            'a||b=c', 'esc\x1b[31m', '\udcff\udcfe', 'trace=\u00e9\udcc3', '\x7f', ' '])
         nctx = r.choice([0, 0, 1, 2])
         nf = r.choice([0, 1, 1, 2, 3, 5])
         return 'EV %s %d %d %d %d %d %d %d %d %s %d %d %s %s %s %s' % (
-            lvl, Y, M, D, h, m, s, ms, off, hx(file.encode()), line, W, hx(tag.encode()), hx(ctx.encode()),
+            lvl, Y, M, D, h, m, s, ms, off, hx(file.encode()), line, W, hx(tag.encode()), hx(ctx.encode("utf8", "surrogateescape")),
             self.fields(nctx, 2), self.fields(nf))
 
     def same_instant_elsewhere(self, ev):
